@@ -56,7 +56,7 @@ def repo_schema(ctx, rel):
 TLS = "internal/tlcodegen/test/tls/"
 REPO_SETS = {
     "cases": [TLS + "cases.tl"],
-    "casestl2": [TLS + "cases.tl", TLS + "cases.tl2"],
+    "casestl2": [TLS + "cases.tl2"],
     "goldmaster": [TLS + "goldmaster.tl", TLS + "goldmaster2.tl", TLS + "goldmaster3.tl"],
     "schema": [TLS + "schema.tl"],
 }
